@@ -2,7 +2,7 @@
 (* Model-checking instance of HeaderOps: exhaustive enumeration of (header list, filter
    sequence) pairs; every maximal behaviour is printed as one JSON line for replay into
    the real library (binding B1). *)
-EXTENDS HeaderOps, Json
+EXTENDS HeaderMachine, Json
 
 Emit == Len(fs) = MaxF => PrintT(<<"REPLAY", ToJson([h |-> h0, fs |-> fs])>>)
 =============================================================================
